@@ -4,6 +4,7 @@ C12 — Delete removes only what it reports, and reports it exactly.
 import Klev.Proofs.Delete
 import Klev.Proofs.DeleteMultiOK
 import Klev.Proofs.Reach
+import Klev.Proofs.Witness
 namespace Klev.C12
 
 /-- **Delete step.** On every log state satisfying the invariant, for every offset set:
@@ -163,6 +164,67 @@ theorem thenDelete_removed (l l1 : Log) (hld : Loaded l l1) (multi : Bool) (offs
   Klev.thenDelete_removed l l1 hld multi offs
 
 end Klev.C12
+
+/-! ### Non-vacuity: the theorems at the witness log `Witness.wL` (segments `0: [0, 1]`,
+`2: [2, 4]`, `5: [5, 6]`, `8: [8]`, read-write; `Klev/Proofs/Witness.lean`) -/
+section NonVacuity
+open Klev Klev.Witness Klev.Helpers
+
+example := Klev.C12.delete_step wL wL_inv [4, 5]
+example := Klev.C12.delete_step wL wL_inv [3]
+example := Klev.C12.delete_step wRO wRO_inv [4]
+-- the same set `[4, 5]` twice on the model: the first pass removes 4 (segment 2 holds the lowest
+-- requested offset); the second pass targets the same segment again and removes nothing (offset 5,
+-- live and requested, stays: one `Delete` serves one segment) …
+example :=
+  have e1 : (wL.delete [4, 5]).2 = .ok ([⟨4, 30, [6], []⟩], 69) := by decide
+  have e2 : ((wL.delete [4, 5]).1.delete [4, 5]).2 = .ok ([], 0) := by decide
+  Klev.C12.delete_twice_nothing wL.opts.params (abs wL) (abs (wL.delete [4, 5]).1)
+    (abs ((wL.delete [4, 5]).1.delete [4, 5]).1) [4, 5] [⟨4, 30, [6], []⟩] [] 69 0
+    (by have h := (Klev.delete_step wL wL_inv [4, 5]).2; rw [wL_rw, e1] at h; exact h)
+    (by have h := (Klev.delete_step _ (Klev.delete_step wL wL_inv [4, 5]).1 [4, 5]).2
+        rw [Klev.delete_opts, wL_rw, e2] at h; exact h)
+    (by decide) (by decide)
+-- … and on the L0 relation alone, with a second report that is not empty
+example := Klev.C12.delete_twice_nothing ⟨true, true⟩ ⟨[⟨4, 30, [6], []⟩, ⟨5, 30, [4], [5]⟩], 9⟩
+  ⟨[⟨5, 30, [4], [5]⟩], 9⟩ ⟨[], 9⟩ [4, 5] [⟨4, 30, [6], []⟩] [⟨5, 30, [4], [5]⟩] 69 70
+  (by decide) (by decide) (by decide) (by decide)
+example := Klev.C12.delete_cases wL wL_inv [4, 5]
+example := Klev.C12.delete_step_reachable oo ops [4, 5]
+example := Klev.C12.deleteMulti_spec_reachable oo ops [8, 0, 4, 4]
+example := Klev.C12.delete_target wL wL_inv wL_rw [8, 6, 5] (by decide) ⟨5, 30, [4], [5]⟩ (by decide) (by decide)
+example := Klev.C12.delete_lowest wL wL_inv wL_rw [8, 6, 5] (by decide) ⟨5, 30, [4], [5]⟩ (by decide) (by decide)
+example := Klev.C12.delete_run wL wL_inv wL_rw [8, 6, 5] (by decide) ⟨5, 30, [4], [5]⟩ (by decide) (by decide)
+example := Klev.C12.deleteMulti_spec wL wL_inv [8, 0, 4, 4, 7, 100]
+example := Klev.C12.deleteMulti_complete wL wL_inv wL_rw [8, 0, 4, 4] (by decide)
+example := Klev.C12.single_delete_removed wL wL_inv [4, 5]
+example := Klev.C12.thenDelete_removed wL (wL.get 0).1 (Klev.get_loaded wL wL_inv 0) true [8, 0, 4]
+example := Klev.C12.thenDelete_removed wL wL (Loaded.refl wL_inv) false [8, 0, 4]
+
+-- evaluated
+example : (wL.delete [8, 6, 5]).2 = .ok ([⟨5, 30, [4], [5]⟩, ⟨6, 40, [1], [6]⟩], 140) ∧
+    (abs (wL.delete [8, 6, 5]).1).live.map (·.off) = [0, 1, 2, 4, 8] ∧
+    (abs (wL.delete [8, 6, 5]).1).next = 9 := by decide
+example : (wL.delete [3]).2 = .ok ([], 0) ∧ (wL.delete [-1]).2 = .err .invalidOffset ∧
+    (wL.delete []).2 = .ok ([], 0) ∧ (wRO.delete [4]).2 = .err .readonly := by decide
+-- `DeleteMulti` over live offsets only: all of them go
+example : (deleteMulti wL [8, 0, 4, 4]).2.err = none ∧
+    (deleteMulti wL [8, 0, 4, 4]).2.msgs.map (·.off) = [0, 4, 8] ∧
+    (deleteMulti wL [8, 0, 4, 4]).2.size = 70 + 69 + 70 ∧
+    (abs (deleteMulti wL [8, 0, 4, 4]).1).live.map (·.off) = [1, 2, 5, 6] ∧
+    (abs (deleteMulti wL [8, 0, 4, 4]).1).next = 9 := by decide
+-- NOTE (what the completion clause does not cover): with a *dead* offset in the set (7, deleted
+-- earlier) the loop stops at the pass whose lowest remaining offset is 7 — that pass deletes
+-- nothing — and the live requested offset 8 is left in place, with no error. This is the loop of
+-- delete.go (`case len(deleted) == 0: return … nil`); `deleteMulti_spec` promises completion only
+-- when every requested offset is live.
+example : (deleteMulti wL [8, 0, 4, 4, 7, 100]).2.err = none ∧
+    (deleteMulti wL [8, 0, 4, 4, 7, 100]).2.msgs.map (·.off) = [0, 4] ∧
+    (deleteMulti wL [8, 0, 4, 4, 7, 100]).2.size = 70 + 69 ∧
+    (abs (deleteMulti wL [8, 0, 4, 4, 7, 100]).1).live.map (·.off) = [1, 2, 5, 6, 8] ∧
+    (abs (deleteMulti wL [8, 0, 4, 4, 7, 100]).1).next = 9 := by decide
+
+end NonVacuity
 
 #print axioms Klev.C12.delete_step
 #print axioms Klev.C12.delete_twice_nothing
